@@ -30,7 +30,7 @@ class Frame:
 
 
 class Obligation:
-    __slots__ = ("kind", "name", "guard", "cond", "pos", "nassume", "fn")
+    __slots__ = ("kind", "name", "guard", "cond", "pos", "nassume", "fn", "thread", "seg")
 
     def __init__(self, kind, name, guard, cond, pos, nassume, fn):
         self.kind = kind
@@ -40,6 +40,8 @@ class Obligation:
         self.pos = pos
         self.nassume = nassume
         self.fn = fn
+        self.thread = None
+        self.seg = None
 
 
 class IterV:
@@ -90,7 +92,15 @@ class Executor(ValueOps, InstrOps):
         _m.install(self)
 
     # ------------------------------------------------------------------ solver helpers
+    def conc_guard(self, guard):
+        """while a thread body is being recorded, facts hold only if the current segment is eventually executed"""
+        c = getattr(self, "conc", None)
+        if c is not None and c.recording is not None:
+            return b_and(guard, c.executed_now())
+        return guard
+
     def assume(self, cond, guard=True, desc=""):
+        guard = self.conc_guard(guard)
         c = b_implies(guard, cond)
         if c is True:
             return
@@ -162,12 +172,17 @@ class Executor(ValueOps, InstrOps):
         return r != z3.unsat
 
     def oblige(self, kind, name, guard, cond, pos, fn=None):
+        guard = self.conc_guard(guard)
+        if getattr(self, "conc", None) is not None:
+            na = 1 << 30
+        else:
+            na = None
         if guard is False or cond is True:
             if kind == "assert":
                 # still record trivially-true assertion for bookkeeping
-                self.obligations.append(Obligation(kind, name, guard, True, pos, len(self.assumes), fn))
+                self.obligations.append(Obligation(kind, name, guard, True, pos, na or len(self.assumes), fn))
             return
-        self.obligations.append(Obligation(kind, name, guard, cond, pos, len(self.assumes), fn))
+        self.obligations.append(Obligation(kind, name, guard, cond, pos, na or len(self.assumes), fn))
 
     # ------------------------------------------------------------------ operands
     def const(self, c):
